@@ -923,9 +923,15 @@ def stepWire (d : DState) (toks : List String) (impl : String) : DState × Verdi
               let v := if v.isNone && implQ != elems.length - 1 then
                   some (pfx d s!"batch_roundtrip: Read took a frame of {elems.length} messages but queued {implQ} for the following reads")
                 else v
+              -- messages of an accepted frame that never come out of Read are lost for every property that
+              -- speaks about them: a lost response leaves its call blocked (C01), a lost call is never
+              -- answered (C02), a lost notification is never dispatched (C03)
+              let vLost : Option String := if implQ != elems.length - 1 then
+                  some s!"C01+C02+C03: ioConn.Read took a frame of {elems.length} messages but queued {implQ} for the following reads: the other messages of the batch are lost (a lost response leaves its call blocked for ever, a lost call is never answered, a lost notification is never dispatched)"
+                else none
               let d := { d with mexpect := (elems.drop 1).take implQ }
               let d := if isBatch && calls ≠ [] then { d with mopen := d.mopen ++ [{ slots := calls.map (fun c => (c, none)), hasNotif := hasNotif }] } else d
-              (d, v, none, if ooo then some ("C03: " ++ orderClause) else none)
+              (d, v, vLost, if ooo then some ("C03: " ++ orderClause) else none)
             else
               let f2 := isBatch && hasNotif && (impl.startsWith "err dup" || impl.startsWith "err seen")
               let v19 := if !wf then none
